@@ -16,6 +16,7 @@ import numpy as np
 
 from .. import ops, snap
 from ..env import xgi
+from .. import suite
 from . import common
 
 PID = "C08"
@@ -26,6 +27,7 @@ RULE = (
     "case = (public callable, network class, seeded network, argument variant); the deep snapshot (node order, edge order, members, memberships, "
     "deep-copied attributes, network attributes, next automatic edge ID) is compared before/after the call (returned or raised) and again after "
     "mutating every set reachable in the return value. distinct_nontrivial = distinct (callable, class, arguments, network) where the network has an edge"
+    " | suite: the repository's own tests run under xgimon/suite_plugin.py; every outermost public boundary call on a network is one more evaluation"
 )
 ASSUMPTIONS = [
     "network-first-parameter names: H, S, SC, net, DH, data (to_hypergraph & co.); documented in-place helpers (update_uid_counter, in_place=True variants) are excluded",
@@ -84,11 +86,12 @@ def plan(tier):
     k = 60 if tier == "quick" else 4000
     p = {f"fn:{n}": k for n in FUNCS}
     p.update({f"m:{o}.{n}": (30 if tier == "quick" else 2000) for o, n in METHS})
+    p["suite"] = 1
     return p
 
 
 def floors(tier):
-    return {"probed-callables>=140": 1, "unprobed<=6": 1, "calls:returned": 6000, "calls:raised": 500, "alias-probes": 300, "sets-probed": 800}
+    return {"probed-callables>=140": 1, "unprobed<=6": 1, "calls:returned": 6000, "calls:raised": 500, "alias-probes": 300, "sets-probed": 800, "suite:evaluations": 200}
 
 
 # ---------------------------------------------------------------------------------
@@ -361,6 +364,8 @@ def _small_complex(rng, pool):
 
 
 def run_case(mon, kind, idx, rng):
+    if kind == "suite":  # the repository's own tests as a workload, observed by xgimon/suite_plugin.py
+        return suite.run(mon, PID, mon.tier)
     cls = CLASSES[idx % 3]
     net = make_net(rng, cls)
     if snap.inv(net):
